@@ -14,7 +14,7 @@ LEVEL = "fault_enumeration"
 RULE = (
     "case = (frame stream [optionally preceded by the handshake response and read through connect()], partition of the "
     "byte stream into transport reads, multiset of injected receive timeouts between reads in three flavours "
-    "(socket.timeout, TimeoutError, SSLError 'timed out'), driver). Exhaustive part: every subset of cut positions inside "
+    "(socket.timeout, TimeoutError, SSLError 'timed out'; plus the would-block of a non-blocking transport, timeout 0), driver). Exhaustive part: every subset of cut positions inside "
     "a window over the first 11..13 bytes (16 in thorough) of streams chosen so that the 2-byte header, the 16-bit and "
     "64-bit length, the mask key and the handshake/frame seam are split, plus all-single-bytes. Non-trivial: a cut inside "
     "a header/length/key, or a timeout inside a frame, or frame bytes sharing a segment with the handshake response. "
@@ -57,6 +57,10 @@ def run_case(case):
     wire, frames, ends = rx.wire_of(specs)
     cuts = case.get("cuts", [])
     timeouts = case.get("timeouts", [])
+    nonblock = any(t[2] == 3 for t in timeouts)
+    if nonblock:
+        # non-blocking use (settimeout(0) after connecting): every "nothing there yet" is a would-block
+        timeouts = [[t[0], t[1], 3] for t in timeouts]
     via = case.get("via", "direct")
     hs_len = 0
     if via == "connect":
@@ -95,6 +99,8 @@ def run_case(case):
     else:
         script, n_t, chunks = build_script(wire, cuts, timeouts)
         ws, fs = make_ws(script, fire_cont_frame=fire, skip_utf8_validation=skip)
+    if nonblock:
+        ws.settimeout(0)
     events = rx.drive(ws, fs, driver, cf)
     want, wwr = rx.expected_events(frames, ends, len(wire), driver, cf, fire, skip)
     tag = "segmentation" + ("+handshake" if via == "connect" else "") + ("+timeouts" if n_t else "")
@@ -107,7 +113,7 @@ def run_case(case):
     # timeouts positioned after the final raise are never reached; count only those delivered
     delivered = sum(1 for e in fs.log if e[0] == "T")
     if len(tev) != delivered:
-        obs.fail("timeout|not-surfaced-as-WebSocketTimeoutException", f"{delivered} transport timeouts, {len(tev)} WebSocketTimeoutException")
+        obs.fail("timeout|not-surfaced-as-WebSocketTimeoutException", f"{delivered} transport timeouts, {len(tev)} WebSocketTimeoutException{' / BlockingIOError' if nonblock else ''}")
     for e in tev:
         if not e[2] or not e[3]:
             obs.fail("timeout|connection-state-damaged", f"after a receive timeout: connected flag unchanged={e[2]} transport attached+open={e[3]}")
@@ -185,7 +191,7 @@ def timeout_cases():
             if driver == "frame" and name in ("illegal-tail", "bad-utf8", "frag+ping", "close", "hs+close"):
                 continue
             for p in range(hs, min(total, hs + 48)):
-                kind = (p + di) % 3
+                kind = (p + di) % 4
                 cuts = [p] if p > 0 else []
                 idx = 1 if p > 0 else 0
                 yield {"frames": specs, "cuts": cuts, "timeouts": [[idx, 1 + (p % 2), kind]], "driver": driver, "cf": cf, "via": via, "stream": name}
@@ -193,6 +199,8 @@ def timeout_cases():
             cuts = list(range(max(hs, 1), n))
             first = 1 if hs else 0
             yield {"frames": specs, "cuts": cuts, "timeouts": [[i, 1, (i + di) % 3] for i in range(first, len(cuts) + 1)],
+                   "driver": driver, "cf": cf, "via": via, "stream": name}
+            yield {"frames": specs, "cuts": cuts, "timeouts": [[i, 1, 3] for i in range(first, len(cuts) + 1)],
                    "driver": driver, "cf": cf, "via": via, "stream": name}
 
 
@@ -219,18 +227,18 @@ def cases(draw):
         hot = [i for i, b in enumerate(bounds0) if b in set(interesting)]
         for _ in range(draw(st.integers(1, 4))):
             idx = draw(st.sampled_from(hot)) if hot and draw(st.booleans()) else draw(st.integers(0, nchunks))
-            timeouts.append([idx, draw(st.integers(1, 3)), draw(st.integers(0, 2))])
+            timeouts.append([idx, draw(st.integers(1, 3)), draw(st.sampled_from([0, 1, 2, 0, 1, 2, 3]))])
     if via == "connect":
         # no timeouts inside the handshake part: keep those whose chunk starts at or after the seam
         bounds = [0] + sorted(set(c for c in cuts if 0 < c < total))
         timeouts = [t for t in timeouts if t[0] < len(bounds) and bounds[t[0]] >= hs or t[0] >= len(bounds)]
-    driver = draw(st.sampled_from(["data_frame", "data", "recv", "frame"]))
+    driver = draw(st.sampled_from(["data_frame", "data", "recv", "frame", "next", "iter"]))
     illegal = any(rm.frame_violation(f, False) not in (None, "cont-without-message", "data-inside-message") for f in frames) or specs[-1].get("op") == 0
     if driver == "frame" and (illegal or any(f.opcode == rm.CLOSE for f in frames)):
         driver = "data_frame"
     return {"frames": specs, "cuts": cuts, "timeouts": timeouts, "driver": driver, "via": via,
             "cf": draw(st.booleans()) if driver in ("data_frame", "data") else False,
-            "fire": draw(st.integers(0, 3)) == 0 and driver in ("data_frame", "data") and not illegal, "skip": draw(st.integers(0, 4)) == 0 and driver != "recv" and not illegal}
+            "fire": draw(st.integers(0, 3)) == 0 and driver in ("data_frame", "data") and not illegal, "skip": draw(st.integers(0, 4)) == 0 and driver not in rx.RECVS and not illegal}
 
 
 def jobs(tier, seed):
